@@ -1,6 +1,6 @@
 """C04 — mixed-type ordering is one consistent total preorder: None < numbers < rest.
 
-Enumerates ALL ordered pairs and ALL ordered triples over the 36-value alphabet V36 on the real
+Enumerates ALL ordered pairs and ALL ordered triples over the 38-value alphabet V36 (36 values + two numeric-subclass instances) on the real
 petl.comparison.Comparable, and for every pair the users of the ordering (sort, issorted, the
 comparison selectors, join) on one-column tables.  Oracle: order laws + independent reference cmp.
 """
@@ -15,11 +15,12 @@ from .. import spaces
 ID = 'C04'
 LEVEL = 'model_checking'
 ENGINE = 'E2 small-scope enumeration against reference order'
-RULE = ('all ordered pairs and triples over V36 (None, bool/int/float/Decimal, bytes, str, date, datetime, '
+RULE = ('all ordered pairs and triples over V36 (None, bool/int/float/Decimal, int/float SUBCLASS instances, bytes, str, date, datetime, '
         'time, nested tuples/lists); states = distinct pairs/triples; a case is non-trivial when the '
         'values are pairwise non-identical objects; every pair is also pushed through sort(reverse on/off), '
-        'issorted, selectlt/le/gt/ge/eq/ne, the four range selectors and join on one-column tables')
-ASSUMPTIONS = ['value domain limited to the 36 representatives (seed picks the concrete ints/strings/dates)',
+        'issorted (also of a sort view), selectlt/le/gt/ge/eq/ne, the four range selectors and the six merge joins '
+        '(1x1 and 2x2 keys, buffersize None/1/2/3, cache off) on one-column tables')
+ASSUMPTIONS = ['value domain limited to the 38 representatives (seed picks the concrete ints/strings/dates)',
                'NaN excluded by the statement']
 
 _V = None
@@ -167,6 +168,20 @@ def user_checks(a, b):
             bad.append(('issorted-of-sort', ''))
         if bool(etl.issorted(t)) != (rc <= 0):
             bad.append(('issorted-lexical', 'key=None'))
+        # the operand is itself a (not materialised) sort view, same key and direction: sorted by construction,
+        # strictly so exactly when the two keys are not tied
+        for rev in (False, True):
+            for key in ('x', None):
+                sv = etl.sort(t, key, reverse=rev) if key else etl.sort(t, reverse=rev)
+                for strict in (False, True):
+                    got = bool(etl.issorted(sv, key, reverse=rev, strict=strict) if key
+                               else etl.issorted(sv, reverse=rev, strict=strict))
+                    if got != ((rc != 0) if strict else True):
+                        bad.append(('issorted-of-sortview', 'key=%r reverse=%s strict=%s says %s'
+                                    % (key, rev, strict, got)))
+                if key and bool(etl.wrap(t).sort(key, reverse=rev).issorted(key, reverse=not rev, strict=True)) \
+                        != (False if rc != 0 else False):
+                    bad.append(('issorted-of-sortview-opposite', 'key=%r reverse=%s' % (key, rev)))
     guard('issorted', c_issorted)
 
     def c_select():
@@ -197,6 +212,30 @@ def user_checks(a, b):
         n = len(list(etl.outerjoin(l, r, key='x'))) - 1
         if n != (1 if rc == 0 else 2):
             bad.append(('outerjoin-match', 'outerjoin produced %d rows, keys equal=%s' % (n, rc == 0)))
+        # two keys per side, every execution strategy of the internal sorts: the merge must meet the keys in the
+        # order the sorts deliver them
+        l2 = [('x', 'l')] + [(a, 0), (b, 1)]
+        r2 = [('x', 'r')] + [(b, 2), (a, 3)]
+        pairs = 4 if rc == 0 else 2
+        for kw in ({}, {'buffersize': 1}, {'buffersize': 2}, {'buffersize': 3}, {'cache': False}):
+            for name, exp in (('join', pairs), ('leftjoin', pairs), ('rightjoin', pairs), ('outerjoin', pairs),
+                              ('lookupjoin', 2), ('antijoin', 0)):
+                out = list(getattr(etl, name)(l2, r2, key='x', **kw))[1:]
+                n = len(out)
+                if n != exp:
+                    bad.append(('%s-match-2x2' % name, '%s(%s) produced %d rows, expected %d'
+                                % (name, ','.join(sorted(kw)) or 'default', n, exp)))
+                elif not ref.is_sorted([r_[0] for r_ in out]):
+                    bad.append(('%s-keyorder-2x2' % name, '%s(%s): output keys are not in ascending order'
+                                % (name, ','.join(sorted(kw)) or 'default')))
+            # one side holds only one of the two keys: the merge has to skip past the other
+            r1 = [('x', 'r')] + [(a, 3)]
+            for name, exp in (('join', 2 if rc == 0 else 1), ('leftjoin', 2), ('rightjoin', 2 if rc == 0 else 1),
+                              ('outerjoin', 2), ('antijoin', 0 if rc == 0 else 1)):
+                n = len(list(getattr(etl, name)(l2, r1, key='x', **kw))) - 1
+                if n != exp:
+                    bad.append(('%s-match-2x1' % name, '%s(%s) produced %d rows, expected %d'
+                                % (name, ','.join(sorted(kw)) or 'default', n, exp)))
     guard('join', c_join)
     return bad
 
